@@ -20,7 +20,7 @@ static pthread_cond_t bcond_idle = PTHREAD_COND_INITIALIZER;  /* receiver found 
 static int16_t *inq = NULL; static size_t in_len = 0, in_pos = 0, in_cap = 0;
 typedef struct { size_t end; long id; } pktmark_t;
 static pktmark_t *marks = NULL; static size_t nmarks = 0, mark_pos = 0, marks_cap = 0;
-static long next_pkt_id = 1;
+static atomic_long next_pkt_id = 1;
 static long last_consumed_pkt = 0, pending_done_pkt = 0;
 static int idle_polls = 0;
 static int receiver_alive = 0;
@@ -38,12 +38,15 @@ NOINST static void in_reserve(size_t extra) {
 	if (in_pos == in_len) { in_pos = in_len = 0; nmarks = mark_pos = 0; }
 	if (in_len + extra > in_cap) { in_cap = (in_len + extra) * 2 + 256; inq = realloc(inq, in_cap * sizeof *inq); }
 }
-NOINST static long mark_add_locked(void) {
+NOINST static long mark_add_locked(long id) {
 	if (nmarks + 1 > marks_cap) { marks_cap = marks_cap * 2 + 64; marks = realloc(marks, marks_cap * sizeof *marks); }
-	marks[nmarks].end = in_len; marks[nmarks].id = next_pkt_id; nmarks++;
-	return next_pkt_id++;
+	if (id <= 0) id = atomic_fetch_add(&next_pkt_id, 1);
+	marks[nmarks].end = in_len; marks[nmarks].id = id; nmarks++;
+	return id;
 }
-NOINST static long push_packet_locked(const uint8_t *payload, size_t n) {
+NOINST static long push_packet_locked_id(const uint8_t *payload, size_t n, long id);
+NOINST static long push_packet_locked(const uint8_t *payload, size_t n) { return push_packet_locked_id(payload, n, 0); }
+NOINST static long push_packet_locked_id(const uint8_t *payload, size_t n, long id) {
 	in_reserve(2 * n + 6);
 	uint8_t crc = 0;
 	inq[in_len++] = 0xFE;
@@ -53,7 +56,7 @@ NOINST static long push_packet_locked(const uint8_t *payload, size_t n) {
 		if (b == 0xFE || b == 0xFD) { inq[in_len++] = 0xFD; inq[in_len++] = b ^ 0x20; } else inq[in_len++] = b;
 	}
 	inq[in_len++] = 0xFE;
-	long id = mark_add_locked();
+	id = mark_add_locked(id);
 	idle_polls = 0;
 	pthread_cond_broadcast(&bcond_in);
 	return id;
@@ -61,21 +64,25 @@ NOINST static long push_packet_locked(const uint8_t *payload, size_t n) {
 NOINST void bus_push_packet(const uint8_t *payload, size_t n) {
 	char hx[1024]; hexstr(hx, payload, n > 500 ? 500 : n);
 	/* np: sequence number taken BEFORE the bytes become visible to the receiver (lower bound of the delivery time) */
+	/* the event is written BEFORE the bytes become visible to the receiver, so that everything the receiver does with
+	 * them comes later in the log */
+	long id = atomic_fetch_add(&next_pkt_id, 1);
 	unsigned long long np = ev_seq();
-	__real_pthread_mutex_lock(&bmx);
-	long id = push_packet_locked(payload, n);
-	__real_pthread_mutex_unlock(&bmx);
 	ev("\"e\":\"up\",\"pkt\":%ld,\"np\":%llu,\"payload\":\"%s\"", id, np, hx);
+	__real_pthread_mutex_lock(&bmx);
+	push_packet_locked_id(payload, n, id);
+	__real_pthread_mutex_unlock(&bmx);
 }
 NOINST void bus_push_raw(const int16_t *items, size_t n) {
+	long id = atomic_fetch_add(&next_pkt_id, 1);
+	ev("\"e\":\"upraw\",\"pkt\":%ld,\"len\":%zu", id, n);
 	__real_pthread_mutex_lock(&bmx);
 	in_reserve(n);
 	memcpy(inq + in_len, items, n * sizeof *items); in_len += n;
-	long id = mark_add_locked();
+	mark_add_locked(id);
 	idle_polls = 0;
 	pthread_cond_broadcast(&bcond_in);
 	__real_pthread_mutex_unlock(&bmx);
-	ev("\"e\":\"upraw\",\"pkt\":%ld,\"len\":%zu", id, n);
 }
 
 NOINST uint8_t bus_read_cb(int *ok) {
